@@ -363,7 +363,9 @@ void runSimHistory(const std::vector<SimOp>& ops, const std::string& property, s
                 if (has1) { b1.resetBranch(o.q, 1); d1 = refq::maxDiffUpToPhase(b1.a, real.m_state); }
                 bool distinguishable = has0 && has1 && refq::maxDiffUpToPhase(b0.a, b1.a) > 1e-6;
                 int br = d1 < d0 ? 1 : 0;
-                bool anyTiny = has0 && has1 && std::min(p1, 1 - p1) <= 1e-9;
+                // one branch has rounding-noise weight in the model - possibly exactly zero there while the real state, rounded
+                // differently, keeps 1e-33 of it, which a boundary draw (r = 0) then selects
+                bool anyTiny = std::min(p1, 1 - p1) <= 1e-9;
                 if (std::min(d0, d1) > 1e-9) {
                     bool fin = true;
                     double nr = 0;
